@@ -1044,16 +1044,15 @@ Qed.
 
 (* what the oracle means *)
 Definition key_spec (l : alog) (k : kobs) : Prop :=
-  exists vs g f, k_vals k = Some vs /\ k_get k = Some g /\ k_first k = Some f /\
-    (forall x, count val_eqb vs x = count val_eqb (vals_of l (k_id k)) x) /\
-    match g with None => vals_of l (k_id k) = [] | Some v => In v (vals_of l (k_id k)) end /\
-    f = spec_first l (k_id k).
+  k_vals k = Some (rev (vals_of l (k_id k))) /\
+  k_get k = Some (hd_error (rev (vals_of l (k_id k)))) /\
+  k_first k = Some (spec_first l (k_id k)).
 
 Definition iter_spec (l : alog) (io : iobs) : Prop :=
   match io with
   | ISkip => True
   | IPanic => False
-  | IList it => forall x, count pair_eqb (concat it) x = count pair_eqb l x
+  | IList it => concat it = l
   end.
 
 Definition ckpt_spec (l : alog) (c : ckpt) : Prop :=
@@ -1066,28 +1065,29 @@ Fixpoint ckpts_spec (l : alog) (cs : list ckpt) : Prop :=
   | c :: r => let l' := l ++ log_of (concat (c_ops c)) in ckpt_spec l' c /\ ckpts_spec l' r
   end.
 
+Lemma oval_eqb_spec a b : option_eqb val_eqb a b = true <-> a = b.
+Proof.
+  destruct a as [x|], b as [y|]; cbn [option_eqb]; try (split; [discriminate | intro H; inversion H]); [|tauto].
+  rewrite val_eqb_spec. split; [intros ->; reflexivity | intro H; inversion H; reflexivity].
+Qed.
+
 Lemma key_ok_spec l k : key_ok l k = 0 <-> key_spec l k.
 Proof.
   unfold key_ok, key_spec.
-  destruct (k_vals k) as [vs|]; [|split; [discriminate | intros (?&?&?&H&_); discriminate]].
-  destruct (k_get k) as [g|]; [|split; [discriminate | intros (?&?&?&_&H&_); discriminate]].
-  destruct (k_first k) as [f|]; [|split; [discriminate | intros (?&?&?&_&_&H&_); discriminate]].
-  destruct (msetb val_eqb vs (vals_of l (k_id k))) eqn:E1; cbn [negb].
-  2:{ split; [discriminate|]. intros (vs' & g' & f' & H1 & _ & _ & H4 & _). inversion H1; subst vs'.
-      apply (proj2 (msetb_spec val_eqb val_eqb_spec _ _)) in H4. congruence. }
-  pose proof (proj1 (msetb_spec val_eqb val_eqb_spec _ _) E1) as E1'.
-  assert (Hg : (match g with
-                | None => match vals_of l (k_id k) with [] => true | _ => false end
-                | Some v => memb val_eqb v (vals_of l (k_id k)) end) = true <->
-               match g with None => vals_of l (k_id k) = [] | Some v => In v (vals_of l (k_id k)) end).
-  { destruct g as [v|]; [apply (memb_spec val_eqb val_eqb_spec)|].
-    destruct (vals_of l (k_id k)); split; auto; discriminate. }
-  destruct (match g with None => _ | Some v => _ end) eqn:E2; cbn [negb].
-  2:{ split; [discriminate|]. intros (vs' & g' & f' & _ & H2 & _ & _ & H5 & _). inversion H2; subst g'.
-      apply Hg in H5. congruence. }
+  destruct (k_vals k) as [vs|]; [|split; [discriminate | intros (H&_); discriminate]].
+  destruct (k_get k) as [g|]; [|split; [discriminate | intros (_&H&_); discriminate]].
+  destruct (k_first k) as [f|]; [|split; [discriminate | intros (_&_&H); discriminate]].
+  destruct (list_eqb val_eqb vs (rev (vals_of l (k_id k)))) eqn:E1; cbn [negb].
+  2:{ split; [discriminate|]. intros (H & _). inversion H; subst vs.
+      rewrite (proj2 (list_eqb_spec val_eqb val_eqb_spec _ _) eq_refl) in E1. discriminate. }
+  apply (list_eqb_spec val_eqb val_eqb_spec) in E1. subst vs.
+  destruct (option_eqb val_eqb g (hd_error (rev (vals_of l (k_id k))))) eqn:E2; cbn [negb].
+  2:{ split; [discriminate|]. intros (_ & H & _). inversion H; subst g.
+      rewrite (proj2 (oval_eqb_spec _ _) eq_refl) in E2. discriminate. }
+  apply oval_eqb_spec in E2. subst g.
   destruct (Z.eqb_spec f (spec_first l (k_id k))) as [E3|E3]; cbn [negb].
-  - split; [intros _|reflexivity]. exists vs, g, f. repeat split; auto. apply Hg; reflexivity.
-  - split; [discriminate|]. intros (vs' & g' & f' & _ & _ & H3 & _ & _ & H6). inversion H3; congruence.
+  - subst f. tauto.
+  - split; [discriminate|]. intros (_ & _ & H). inversion H; congruence.
 Qed.
 
 Lemma ckpt_ok_spec l c : ckpt_ok l c = 0 <-> ckpt_spec l c.
@@ -1101,10 +1101,10 @@ Proof.
   destruct (c_iter c) as [| |it]; cbn [iter_spec].
   - rewrite Hk. tauto.
   - split; [discriminate | tauto].
-  - destruct (msetb pair_eqb (concat it) l) eqn:E2; cbn [negb].
-    + pose proof (proj1 (msetb_spec pair_eqb pair_eqb_spec _ _) E2) as E2'. rewrite Hk. tauto.
+  - destruct (list_eqb pair_eqb (concat it) l) eqn:E2; cbn [negb].
+    + apply (list_eqb_spec pair_eqb pair_eqb_spec) in E2. rewrite Hk. tauto.
     + split; [discriminate|]. intros (_ & _ & H & _).
-      apply (proj2 (msetb_spec pair_eqb pair_eqb_spec _ _)) in H. congruence.
+      rewrite (proj2 (list_eqb_spec pair_eqb pair_eqb_spec _ _) H) in E2. discriminate.
 Qed.
 
 Lemma ckpts_ok_spec cs : forall l, ckpts_ok l cs = 0 <-> ckpts_spec l cs.
@@ -1121,13 +1121,7 @@ Proof. unfold check_C56. rewrite Nat.eqb_eq. apply ckpts_ok_spec. Qed.
 Lemma model_key_ok hash m l id : Inv hash m l -> key_ok l (model_kobs hash m id) = 0.
 Proof.
   intro HI. apply key_ok_spec. destruct (lookups_spec hash m l id HI) as (H1 & H2 & H3).
-  unfold key_spec, model_kobs. cbn [k_vals k_get k_first k_id].
-  exists (rev (vals_of l id)), (hd_error (rev (vals_of l id))), (spec_first l id).
-  repeat split; auto.
-  - intro x. apply count_rev; apply val_eqb_spec.
-  - destruct (rev (vals_of l id)) as [|v r] eqn:E; cbn [hd_error].
-    + apply rev_nil_inv; exact E.
-    + apply in_rev. rewrite E. left; reflexivity.
+  unfold key_spec, model_kobs. cbn [k_vals k_get k_first k_id]. auto.
 Qed.
 
 Lemma model_ckpts_ok hash : forall script m l, Inv hash m l ->
